@@ -120,7 +120,7 @@ theorem quotedItem_plain (q : Char) (inp : Array Char) (pos : Nat) (c : Char) (h
     (hc1 : c ≠ '\\') (hc2 : c ≠ q) :
     run Gen.grammar 12 (quotedItem q) inp pos = .ok (pos + 1) [] := by
   have n1 : ¬ ('\\' = c) := fun h => hc1 h.symm
-  simp [quotedItem, run, lit_bs, len_bs, matchLit, h0, n1, inRanges_single, inRanges_nil, hc1, hc2]
+  simp [quotedItem, run, lit_bs, matchLit, h0, n1, inRanges_single, inRanges_nil, hc1, hc2]
 
 /-- `\q` and `\\` -/
 theorem quotedItem_esc (q : Char) (inp : Array Char) (pos : Nat) (e : Char)
@@ -148,6 +148,300 @@ theorem quotedItem_u (q : Char) (hq : q ≠ 'u') (inp : Array Char) (pos : Nat) 
 theorem quotedItem_quote (q : Char) (hq : q ≠ '\\') (inp : Array Char) (pos : Nat) (h0 : inp[pos]? = some q) :
     run Gen.grammar 12 (quotedItem q) inp pos = .fail := by
   have n1 : ¬ ('\\' = q) := fun h => hq h.symm
-  simp [quotedItem, run, lit_bs, len_bs, matchLit, h0, n1, inRanges_single, inRanges_nil]
+  simp [quotedItem, run, lit_bs, matchLit, h0, n1, inRanges_single, inRanges_nil]
+
+/-! ## the quoted loop on a rendering, in context -/
+
+/-- one round on the rendering of one character -/
+theorem quotedItem_piece (q : Char) (hq : q ≠ 'u') (c : Char) (pre rest : List Char) :
+    run Gen.grammar 12 (quotedItem q) (pre ++ (escQuotedChar q c ++ rest)).toArray pre.length
+      = .ok (pre.length + (escQuotedChar q c).length) [] := by
+  unfold escQuotedChar
+  by_cases h1 : c = q
+  · subst h1
+    simp only [if_true, List.cons_append, List.nil_append, List.length_cons, List.length_nil]
+    exact quotedItem_esc c _ _ c (by rw [getElem?_at0]; rfl) (by rw [getElem?_at]; rfl) (Or.inl rfl)
+  · by_cases h2 : c = '\\'
+    · subst h2
+      simp only [if_neg h1, if_true, List.cons_append, List.nil_append, List.length_cons, List.length_nil]
+      exact quotedItem_esc q _ _ '\\' (by rw [getElem?_at0]; rfl) (by rw [getElem?_at]; rfl) (Or.inr rfl)
+    · cases hc : isControl c with
+      | true =>
+        simp only [if_neg h1, if_neg h2, if_true, hex4Digits, List.cons_append, List.nil_append,
+          List.length_cons, List.length_nil]
+        have d1 : c.toNat / 4096 % 16 < 16 := Nat.mod_lt _ (by decide)
+        have d2 : c.toNat / 256 % 16 < 16 := Nat.mod_lt _ (by decide)
+        have d3 : c.toNat / 16 % 16 < 16 := Nat.mod_lt _ (by decide)
+        have d4 : c.toNat % 16 < 16 := Nat.mod_lt _ (by decide)
+        exact quotedItem_u q hq _ _ _ _ _ _ (by rw [getElem?_at0]; rfl) (by rw [getElem?_at]; rfl)
+          (by rw [getElem?_at]; rfl) (by rw [getElem?_at]; rfl) (by rw [getElem?_at]; rfl)
+          (by rw [getElem?_at]; rfl) (isHexDigit_hexDigit _ d1) (isHexDigit_hexDigit _ d2)
+          (isHexDigit_hexDigit _ d3) (isHexDigit_hexDigit _ d4)
+      | false =>
+        simp only [if_neg h1, if_neg h2, Bool.false_eq_true, if_false, List.cons_append, List.nil_append,
+          List.length_cons, List.length_nil]
+        exact quotedItem_plain q _ _ c (by rw [getElem?_at0]; rfl) h2 h1
+
+/-- the loop runs over the whole rendering and stops in front of the closing quote -/
+theorem star_quoted_exact (q : Char) (hq : q ≠ 'u') (hq2 : q ≠ '\\') (post : List Char) :
+    ∀ (k pre : List Char),
+      run Gen.grammar (k.length + 13) (.star (quotedItem q)) (pre ++ (escQuoted q k ++ q :: post)).toArray pre.length
+        = .ok (pre.length + (escQuoted q k).length) [] := by
+  intro k
+  induction k with
+  | nil =>
+    intro pre
+    show run Gen.grammar (12 + 1) _ _ _ = _
+    rw [run_star, quotedItem_quote q hq2 _ _ (by rw [getElem?_at0]; rfl)]
+    rfl
+  | cons c k ih =>
+    intro pre
+    rw [escQuoted_cons, List.append_assoc]
+    have key := quotedItem_piece q hq c pre (escQuoted q k ++ q :: post)
+    have key' : run Gen.grammar (k.length + 13) (quotedItem q)
+        (pre ++ (escQuotedChar q c ++ (escQuoted q k ++ q :: post))).toArray pre.length
+          = .ok (pre.length + (escQuotedChar q c).length) [] := by
+      rw [run_mono (f := 12) (f' := k.length + 13) _ _ (by omega) (by rw [key]; simp), key]
+    show run Gen.grammar (k.length + 13 + 1) _ _ _ = _
+    have h := ih (pre ++ escQuotedChar q c)
+    rw [List.append_assoc, List.length_append] at h
+    rw [run_star]
+    simp only [key', h]
+    simp [Nat.add_assoc]
+
+theorem star_quoted (q : Char) (hq : q ≠ 'u') (hq2 : q ≠ '\\') (k pre post : List Char) (f : Nat)
+    (hf : k.length + 13 ≤ f) :
+    run Gen.grammar f (.star (quotedItem q)) (pre ++ (escQuoted q k ++ q :: post)).toArray pre.length
+      = .ok (pre.length + (escQuoted q k).length) [] := by
+  have h := star_quoted_exact q hq hq2 post k pre
+  rw [run_mono _ _ hf (by rw [h]; simp), h]
+
+private theorem lit_sq : "'".toList = ['\''] := rfl
+private theorem len_sq : "'".length = 1 := rfl
+private theorem lit_dq : "\"".toList = ['"'] := rfl
+private theorem len_dq : "\"".length = 1 := rfl
+
+/-- **The regenerated rule `singleQuotedNodeIdentifier` accepts `'EscSingle k'`** wherever it
+    stands, whatever follows; the capture is exactly the rendering and the action is number 13
+    (`unescapeSingleQuotedString(text)`). -/
+theorem gen_single_rule_accepts (k pre post : List Char) (f : Nat) (hf : k.length + 17 ≤ f) :
+    run Gen.grammar f Gen.rule_singleQuotedNodeIdentifier
+        (pre ++ ('\'' :: (escSingle k ++ '\'' :: post))).toArray pre.length
+      = .ok (pre.length + 1 + (escSingle k).length + 1)
+          [.text (pre.length + 1) (pre.length + 1 + (escSingle k).length), .action 13] := by
+  obtain ⟨m, rfl⟩ : ∃ m, f = m + 1 + 1 + 1 + 1 := ⟨f - 4, by omega⟩
+  have hstar := star_quoted '\'' (by decide) (by decide) k (pre ++ ['\'']) post (m + 1) (by omega)
+  rw [List.append_assoc, List.length_append] at hstar
+  simp only [List.cons_append, List.nil_append, List.length_cons, List.length_nil] at hstar
+  have hclose : (pre ++ '\'' :: (escSingle k ++ '\'' :: post)).toArray[pre.length + 1 + (escSingle k).length]?
+      = some '\'' := by
+    have := getElem?_at pre ('\'' :: (escSingle k ++ '\'' :: post)) (1 + (escSingle k).length)
+    rw [← Nat.add_assoc] at this
+    rw [this, Nat.add_comm 1, List.getElem?_cons_succ, List.getElem?_append_right (Nat.le_refl _)]
+    simp
+  rw [single_rule_shape]
+  unfold escSingle at hclose ⊢
+  simp only [run_seq, run_lit, run_cap, run_act, lit_sq, len_sq, matchLit, getElem?_at0,
+    List.getElem?_cons_zero, beq_self_eq_true, Bool.and_true, if_true, hstar, hclose]
+  simp
+
+/-- **The regenerated rule `doubleQuotedNodeIdentifier` accepts `"EscDouble k"`** wherever it
+    stands, whatever follows; the capture is exactly the rendering and the action is number 14
+    (`unescapeDoubleQuotedString(text)`). -/
+theorem gen_double_rule_accepts (k pre post : List Char) (f : Nat) (hf : k.length + 17 ≤ f) :
+    run Gen.grammar f Gen.rule_doubleQuotedNodeIdentifier
+        (pre ++ ('"' :: (escDouble k ++ '"' :: post))).toArray pre.length
+      = .ok (pre.length + 1 + (escDouble k).length + 1)
+          [.text (pre.length + 1) (pre.length + 1 + (escDouble k).length), .action 14] := by
+  obtain ⟨m, rfl⟩ : ∃ m, f = m + 1 + 1 + 1 + 1 := ⟨f - 4, by omega⟩
+  have hstar := star_quoted '"' (by decide) (by decide) k (pre ++ ['"']) post (m + 1) (by omega)
+  rw [List.append_assoc, List.length_append] at hstar
+  simp only [List.cons_append, List.nil_append, List.length_cons, List.length_nil] at hstar
+  have hclose : (pre ++ '"' :: (escDouble k ++ '"' :: post)).toArray[pre.length + 1 + (escDouble k).length]?
+      = some '"' := by
+    have := getElem?_at pre ('"' :: (escDouble k ++ '"' :: post)) (1 + (escDouble k).length)
+    rw [← Nat.add_assoc] at this
+    rw [this, Nat.add_comm 1, List.getElem?_cons_succ, List.getElem?_append_right (Nat.le_refl _)]
+    simp
+  rw [double_rule_shape]
+  unfold escDouble at hclose ⊢
+  simp only [run_seq, run_lit, run_cap, run_act, lit_dq, len_dq, matchLit, getElem?_at0,
+    List.getElem?_cons_zero, beq_self_eq_true, Bool.and_true, if_true, hstar, hclose]
+  simp
+
+/-! ## one round of the dot-child loop -/
+
+theorem lt_size_of_getElem? (inp : Array Char) (pos : Nat) (c : Char) (h : inp[pos]? = some c) : pos < inp.size := by
+  rcases Nat.lt_or_ge pos inp.size with hlt | hge
+  · exact hlt
+  · rw [Array.getElem?_eq_none hge] at h; cases h
+
+/-- a character that needs no backslash -/
+theorem dotItem_safe (inp : Array Char) (pos : Nat) (c : Char) (h0 : inp[pos]? = some c)
+    (hs : isDotSafe c = true) :
+    run Gen.grammar 12 dotItem inp pos = .ok (pos + 1) [] := by
+  have n1 : ¬ ('\\' = c) := fun h => isDotSafe_ne_backslash c hs h.symm
+  have hlt := lt_size_of_getElem? inp pos c h0
+  have hany : (if pos < inp.size then Result.ok (pos + 1) [] else Result.fail) = Result.ok (pos + 1) [] :=
+    if_pos hlt
+  simp [dotItem, run, lit_bs, matchLit, h0, n1, signs_body, inRanges_sign, inRanges_control,
+    isDotSafe_not_sign c hs, isDotSafe_not_control c hs, hany]
+
+/-- backslash + symbol -/
+theorem dotItem_esc (inp : Array Char) (pos : Nat) (d : Char)
+    (h0 : inp[pos]? = some '\\') (h1 : inp[pos + 1]? = some d) (hd : isSign d = true) :
+    run Gen.grammar 12 dotItem inp pos = .ok (pos + 2) [] := by
+  simp [dotItem, run, lit_bs, len_bs, matchLit, h0, h1, signs_body, inRanges_sign, hd]
+
+/-- the loop stops at the end of the input … -/
+theorem dotItem_end (inp : Array Char) (pos : Nat) (h0 : inp[pos]? = none) :
+    run Gen.grammar 12 dotItem inp pos = .fail := by
+  have hge : ¬ pos < inp.size := by
+    intro hlt
+    rw [Array.getElem?_eq_getElem hlt] at h0; cases h0
+  simp [dotItem, run, lit_bs, matchLit, signs_body, hge]
+
+/-- … and in front of an unescaped symbol other than a backslash, and of a control character -/
+theorem dotItem_stop (inp : Array Char) (pos : Nat) (d : Char) (h0 : inp[pos]? = some d)
+    (hd1 : d ≠ '\\') (hd2 : isSign d = true ∨ isControl d = true) :
+    run Gen.grammar 12 dotItem inp pos = .fail := by
+  have n1 : ¬ ('\\' = d) := fun h => hd1 h.symm
+  rcases hd2 with hd2 | hd2
+  · cases hc : isControl d <;>
+      simp [dotItem, run, lit_bs, matchLit, h0, n1, signs_body, inRanges_sign, inRanges_control, hd2, hc]
+  · simp [dotItem, run, lit_bs, matchLit, h0, n1, inRanges_control, hd2]
+
+/-! ## the dot-child loop on a rendering, in context -/
+
+/-- what may follow a dot-child name so that the loop stops there: the end of the path, an
+    unescaped symbol other than a backslash (`.`, `[`, a blank, `)`, `=`, …) or a control character -/
+def DotStops (post : List Char) : Prop :=
+  post = [] ∨ ∃ d r, post = d :: r ∧ d ≠ '\\' ∧ (isSign d = true ∨ isControl d = true)
+
+theorem dotItem_piece (c : Char) (pre rest : List Char) (hc : isControl c = false) :
+    run Gen.grammar 12 dotItem (pre ++ (escDotChar c ++ rest)).toArray pre.length
+      = .ok (pre.length + (escDotChar c).length) [] := by
+  unfold escDotChar
+  cases hs : isDotSafe c with
+  | true =>
+    simp only [if_true, List.cons_append, List.nil_append, List.length_cons, List.length_nil]
+    exact dotItem_safe _ _ c (by rw [getElem?_at0]; rfl) hs
+  | false =>
+    simp only [Bool.false_eq_true, if_false, List.cons_append, List.nil_append, List.length_cons, List.length_nil]
+    exact dotItem_esc _ _ c (by rw [getElem?_at0]; rfl) (by rw [getElem?_at]; rfl)
+      (isSign_of_not_isDotSafe c hs hc)
+
+theorem dotItem_post (pre post : List Char) (h : DotStops post) :
+    run Gen.grammar 12 dotItem (pre ++ post).toArray pre.length = .fail := by
+  rcases h with h | ⟨d, r, h, hd1, hd2⟩
+  · subst h
+    exact dotItem_end _ _ (by rw [getElem?_at0]; rfl)
+  · subst h
+    exact dotItem_stop _ _ d (by rw [getElem?_at0]; rfl) hd1 hd2
+
+theorem star_dot_exact (post : List Char) (hpost : DotStops post) :
+    ∀ (k pre : List Char), (∀ c ∈ k, isControl c = false) →
+      run Gen.grammar (k.length + 13) (.star dotItem) (pre ++ (escDot k ++ post)).toArray pre.length
+        = .ok (pre.length + (escDot k).length) [] := by
+  intro k
+  induction k with
+  | nil =>
+    intro pre _
+    show run Gen.grammar (12 + 1) _ _ _ = _
+    rw [run_star, escDot_nil, List.nil_append, dotItem_post pre post hpost]
+    rfl
+  | cons c k ih =>
+    intro pre hk
+    rw [escDot_cons, List.append_assoc]
+    have key := dotItem_piece c pre (escDot k ++ post) (hk c (by simp))
+    have key' : run Gen.grammar (k.length + 13) dotItem
+        (pre ++ (escDotChar c ++ (escDot k ++ post))).toArray pre.length
+          = .ok (pre.length + (escDotChar c).length) [] := by
+      rw [run_mono (f := 12) (f' := k.length + 13) _ _ (by omega) (by rw [key]; simp), key]
+    show run Gen.grammar (k.length + 13 + 1) _ _ _ = _
+    have h := ih (pre ++ escDotChar c) (fun d hd => hk d (by simp [hd]))
+    rw [List.append_assoc, List.length_append] at h
+    rw [run_star]
+    simp only [key', h]
+    simp [Nat.add_assoc]
+
+/-- `( … )+` on the rendering of a non-empty key -/
+theorem plus_dot (k pre post : List Char) (hne : k ≠ []) (hk : ∀ c ∈ k, isControl c = false)
+    (hpost : DotStops post) (f : Nat) (hf : k.length + 13 ≤ f) :
+    run Gen.grammar f (.plus dotItem) (pre ++ (escDot k ++ post)).toArray pre.length
+      = .ok (pre.length + (escDot k).length) [] := by
+  cases k with
+  | nil => exact absurd rfl hne
+  | cons c k =>
+    have exact : run Gen.grammar (k.length + 13 + 1) (.plus dotItem)
+        (pre ++ (escDot (c :: k) ++ post)).toArray pre.length
+          = .ok (pre.length + (escDot (c :: k)).length) [] := by
+      rw [escDot_cons, List.append_assoc]
+      have key := dotItem_piece c pre (escDot k ++ post) (hk c (by simp))
+      have key' : run Gen.grammar (k.length + 13) dotItem
+          (pre ++ (escDotChar c ++ (escDot k ++ post))).toArray pre.length
+            = .ok (pre.length + (escDotChar c).length) [] := by
+        rw [run_mono (f := 12) (f' := k.length + 13) _ _ (by omega) (by rw [key]; simp), key]
+      have h := star_dot_exact post hpost k (pre ++ escDotChar c) (fun d hd => hk d (by simp [hd]))
+      rw [List.append_assoc, List.length_append] at h
+      rw [run_plus]
+      simp only [key', h]
+      simp [Nat.add_assoc]
+    rw [run_mono (f := k.length + 13 + 1) _ _ (by simpa using hf) (by rw [exact]; simp), exact]
+
+/-- where a literal matches, on lists -/
+theorem matchLit_at : ∀ (cs pre post : List Char),
+    matchLit (pre ++ post).toArray cs pre.length = cs.isPrefixOf post := by
+  intro cs
+  induction cs with
+  | nil => intro pre post; simp [matchLit]
+  | cons c cs ih =>
+    intro pre post
+    cases post with
+    | nil => simp [matchLit]
+    | cons d post =>
+      have h := ih (pre ++ [d]) post
+      simp only [List.append_assoc, List.cons_append, List.nil_append, List.length_append, List.length_cons,
+        List.length_nil] at h
+      simp only [matchLit, getElem?_at0, List.getElem?_cons_zero, h, List.isPrefixOf]
+
+/-- the rendering of a key never starts with `*` -/
+theorem escDot_head_ne_star (c : Char) (k rest : List Char) :
+    ['*'].isPrefixOf (escDot (c :: k) ++ rest) = false := by
+  rw [escDot_cons]
+  unfold escDotChar
+  cases hs : isDotSafe c with
+  | true =>
+    have : c ≠ '*' := by intro h; subst h; revert hs; decide
+    simp [List.isPrefixOf, this.symm]
+  | false => simp [List.isPrefixOf]
+
+private theorem lit_star : "*".toList = ['*'] := rfl
+private theorem lit_fn : "()".toList = ['(', ')'] := rfl
+
+/-- **The regenerated rule `dotChildIdentifier` accepts `EscDot k`** for every non-empty key
+    without control characters, wherever it stands, provided what follows ends the name
+    (`DotStops`) and is not the `()` of a function call; the capture is exactly the rendering and
+    the action is number 10 (`unescape(text)`). -/
+theorem gen_dot_rule_accepts (k pre post : List Char) (hne : k ≠ []) (hk : ∀ c ∈ k, isControl c = false)
+    (hpost : DotStops post) (hfn : ['(', ')'].isPrefixOf post = false) (f : Nat) (hf : k.length + 17 ≤ f) :
+    run Gen.grammar f Gen.rule_dotChildIdentifier (pre ++ (escDot k ++ post)).toArray pre.length
+      = .ok (pre.length + (escDot k).length)
+          [.text pre.length (pre.length + (escDot k).length), .action 10] := by
+  obtain ⟨m, rfl⟩ : ∃ m, f = m + 1 + 1 + 1 + 1 + 1 := ⟨f - 5, by omega⟩
+  have hplus := plus_dot k pre post hne hk hpost (m + 1 + 1) (by omega)
+  have hstar : matchLit (pre ++ (escDot k ++ post)).toArray ['*'] pre.length = false := by
+    rw [matchLit_at]
+    cases k with
+    | nil => exact absurd rfl hne
+    | cons c k => exact escDot_head_ne_star c k post
+  have hcall : matchLit (pre ++ (escDot k ++ post)).toArray ['(', ')'] (pre.length + (escDot k).length) = false := by
+    have := matchLit_at ['(', ')'] (pre ++ escDot k) post
+    rw [List.append_assoc, List.length_append] at this
+    rw [this, hfn]
+  rw [dot_rule_shape]
+  simp only [run_alt, run_rule, wildcard_body, run_seq, run_lit, run_cap, run_act, run_not, lit_star, lit_fn,
+    hstar, hplus, hcall]
+  simp
 
 end JPV.Lex
